@@ -365,6 +365,9 @@ def check_class(name, x, prm, NFFT, sampling, sbf, tag):
 
 
 def replay(rep):
+    if rep['replay'].get('protocol') == 'values_only':
+        from props import _purity
+        return _purity.replay_protocol(rep['replay'])
     r = rep['replay']; f = r['function']
     warnings.simplefilter('ignore')
     with np.errstate(all='ignore'):
@@ -780,3 +783,7 @@ def run(ctx):
             continue
         viol(bad, rep)
     lap('search_underdetermined')
+
+    # ---------------- results depend on the VALUES given only: call protocol (repeat, aliasing, buffer reuse, memory layout, integer / single-precision dtypes)
+    from props import _purity
+    _purity.run_protocol(ctx, ['ma', 'arma_estimate', 'arma_estimate_P5'])
